@@ -9,6 +9,7 @@ mod c05;
 mod stats;
 mod c13;
 mod c16;
+mod c15;
 
 fn main() {
     let args: Vec<String> = std::env::args().collect();
@@ -27,6 +28,7 @@ fn main() {
         ("c13", "grid") => c13::grid(rest),
         ("c13", "record") => c13::record(rest),
         ("c16", "replay") => c16::replay(rest),
+        ("c15", "replay") => c15::replay(rest),
         (p, m) => util::tool_error(&format!("unknown command {p} {m}")),
     }
 }
